@@ -107,6 +107,9 @@ type sessRunner struct {
 	rc      *RunCtx
 	tc      *treeCache
 	nResolve int
+	last     *MNode // the formula of the previous EVAL, to be evaluated again on the same tree
+	lastText string
+	again    bool
 	pool    []*callerMap // maps this caller handed to the runner before and may hand over again
 }
 
@@ -233,7 +236,7 @@ func (sr *sessRunner) resolve(text string) (v interface{}, err error, pan interf
 	var src *formula.SourceCode
 	var e error
 	if sr.tc != nil {
-		src, e = sr.tc.parse(text, sr.nResolve%2 == 0)
+		src, e = sr.tc.parse(text, sr.nResolve%2 == 0 || sr.again)
 	} else {
 		src, e = formula.ParseSourceCode([]byte(text))
 	}
@@ -355,6 +358,9 @@ func (g *mgen) leaf(want int) (*MNode, MV) {
 	switch want {
 	case wNum:
 		v = mNum(int64(g.s.Intn(40)))
+		if g.s.Intn(12) == 0 { // integers a float64 cannot hold
+			v = mNum([]int64{9007199254740993, 123456789012345679, 4611686018427387905}[g.s.Intn(3)])
+		}
 	case wStr:
 		v = mStr([]string{"a", "b", "ab", "k1", ""}[g.s.Intn(5)])
 	default:
@@ -419,6 +425,10 @@ func (g *mgen) build(want int, d int) (*MNode, MV) {
 		a, av := g.build(wNum, d+1)
 		b, bv := g.build(wNum, d+1)
 		if av.N > 1<<20 || av.N < -(1<<20) || bv.N > 1<<20 || bv.N < -(1<<20) {
+			if av.N > 1<<60 || av.N < -(1<<60) || bv.N > 1<<60 || bv.N < -(1<<60) {
+				// too big for the model's int64 arithmetic: evaluate both, in order, keep the right one
+				return &MNode{Op: nParen, Kids: []*MNode{{Op: nComma, Kids: []*MNode{a, b}}}}, bv
+			}
 			return &MNode{Op: nAdd, Kids: []*MNode{a, b}}, mNum(av.N + bv.N)
 		}
 		switch g.s.Intn(4) {
@@ -772,11 +782,40 @@ func (sr *sessRunner) evalChecked(n *MNode, text string, faultAt int, shadow boo
 	sr.checkAux(sr.m, sr.r, desc)
 }
 
+// opEvalAgain evaluates the formula of the previous EVAL once more, on the very tree
+// that was evaluated then (a counter formula `$n = $n + 1` must count).
+func (sr *sessRunner) opEvalAgain() {
+	if sr.last == nil {
+		return
+	}
+	// the formula was generated against an earlier state: it is only re-run when the
+	// model can evaluate it against the current one (types may have changed)
+	used := map[string]bool{}
+	sr.last.stubsUsed(used)
+	for st := range used {
+		if !sr.m.hasThis || !sr.m.stubs[st] {
+			return // calling something that is not a function is outside the statements (it panics today)
+		}
+	}
+	dry := &mEnv{m: sr.m.clone()}
+	if _, err := dry.eval(sr.last); err == errModelCond || err == errModelType {
+		return
+	}
+	sr.ops++
+	sr.evals++
+	sr.hist = append(sr.hist, "EVAL-AGAIN(`"+sr.lastText+"`, same tree)")
+	sr.again = true
+	sr.evalChecked(sr.last, sr.lastText, 0, false)
+	sr.again = false
+	sr.rc.probe("same_tree_evaluated_again_on_the_same_runner")
+}
+
 func (sr *sessRunner) opEval(s *Stream, maxNodes, maxDepth int, faults bool, enumerate bool) {
 	sr.ops++
 	sr.evals++
 	n := genSessionFormula(s, sr.m, maxNodes, maxDepth, true, sr.rc.opt["nullargs"] == "1")
 	text := n.text(cxTop)
+	sr.last, sr.lastText = n, text
 	// how many host calls does the fault-free evaluation make?
 	dry := &mEnv{m: sr.m.clone()}
 	dry.eval(n)
@@ -871,8 +910,10 @@ func runSessions(rc *RunCtx) {
 			case r < 9:
 				sr.opFetch(s)
 			case r < 10:
-				if s.Bool(1, 2) {
+				if k := s.Intn(3); k == 0 {
 					sr.opCallerWrite(s)
+				} else if k == 1 {
+					sr.opEvalAgain()
 				} else {
 					sr.ops++
 					sr.hist = append(sr.hist, "PROBE")
